@@ -470,7 +470,7 @@ def machine_spec(draw, tier):
 
 FACETS = [
     Facet("machines", check, strategy=lambda tier: machine_spec(tier),
-          budget={"quick": 480, "thorough": 6000}, shards={"quick": 12, "thorough": 16},
+          budget={"quick": 1920, "thorough": 6000}, shards={"quick": 12, "thorough": 16},
           min_nontrivial={"quick": 100, "thorough": 1500}, case_timeout=300),
     Facet("fresh-interpreters", check_fresh_interpreters,
           strategy=lambda tier: st.fixed_dictionaries({"w": wrapper_spec(tier).filter(lambda w: w["kind"] not in ("mix", "x_over_mix", "semseg", "xy_shared")),
